@@ -719,7 +719,7 @@ func (fx *FuncExec) execBlock(b *ssa.BasicBlock, st *State) {
 func (fx *FuncExec) setEdge(b *ssa.BasicBlock, si int, st *State, cond string) {
 	succ := b.Succs[si]
 	c := fx.em.Define(fmt.Sprintf("e%d_%d", b.Index, succ.Index), SBool, and(st.pc, cond))
-	if fx.fc != nil && fx.fc.Prune && fx.discard == 0 && cond != "true" && strings.HasPrefix(succ.Comment, "switch.") && fx.edgeInfeasible(st, c) {
+	if fx.fc != nil && fx.fc.Prune && fx.discard == 0 && cond != "true" && strings.HasPrefix(succ.Comment, "switch.body") && fx.edgeInfeasible(st, c) {
 		// `prune`: the edge is refuted by the solver under everything assumed so far - dead code for
 		// this contract's precondition/invariants; not following it is sound and keeps queries small
 		fx.pruned++
@@ -776,8 +776,32 @@ func (fx *FuncExec) edgeInfeasible(st *State, c string) bool {
 			budget = int(2*f + 0.5)
 		}
 	}
-	out, _ := exec.Command("z3-new", fmt.Sprintf("-T:%d", budget), f.Name()).Output()
-	return strings.HasPrefix(strings.TrimSpace(string(out)), "unsat")
+	// both solvers, first `unsat` wins (they differ widely on these queries)
+	type ans struct{ unsat bool }
+	ch := make(chan ans, 2)
+	cmds := []*exec.Cmd{
+		exec.Command("cvc5", fmt.Sprintf("--tlimit=%d", budget*1000), f.Name()),
+		exec.Command("z3-new", fmt.Sprintf("-T:%d", budget), f.Name()),
+	}
+	for _, c := range cmds {
+		go func(c *exec.Cmd) {
+			out, _ := c.Output()
+			ch <- ans{strings.HasPrefix(strings.TrimSpace(string(out)), "unsat")}
+		}(c)
+	}
+	res := false
+	for range cmds {
+		if a := <-ch; a.unsat {
+			res = true
+			break
+		}
+	}
+	for _, c := range cmds {
+		if c.Process != nil {
+			c.Process.Kill()
+		}
+	}
+	return res
 }
 
 // ---- values -----------------------------------------------------------------------------------------
